@@ -41,6 +41,7 @@ theorem step_next_le {s s' : FS} {e : Sys} (hs : step s e = .ok s') : s.next ≤
     · cases hs
     · split at hs <;> cases hs <;> simp
   case unlink a => split at hs <;> cases hs; simp
+  case fsyncDir => cases hs; simp
 
 theorem frozen_step {s s' : FS} {e : Sys} {i : Nat} {c : Content} (hlt : i < s.next)
     (h : Frozen s i c) (he : e.isOpenWr = false) (hs : step s e = .ok s') : Frozen s' i c := by
@@ -111,6 +112,7 @@ theorem frozen_step {s s' : FS} {e : Sys} {i : Nat} {c : Content} (hlt : i < s.n
     split at hs
     · cases hs
     · cases hs; exact ⟨hc, hd, hdi, hfd⟩
+  | fsyncDir => simp only [step] at hs; cases hs; exact ⟨hc, hd, hdi, hfd⟩
 
 theorem frozen_run {i : Nat} {c : Content} (es : List Sys) :
     ∀ (s : FS), i < s.next → Frozen s i c → (∀ e ∈ es, e.isOpenWr = false) →
